@@ -13,7 +13,7 @@ import z3
 
 from pyvc import values as V
 from pyvc.values import Sym, SymArr, lift
-from pyvc.interp import NS
+from pyvc.interp import NS, LoopSpec
 from pyvc.registry import Contract
 from pyvc.runner import Lemma, Bounded
 from pyvc.lib import torch_ as tm
@@ -35,6 +35,7 @@ def make_registry():
     reg = registry()
     tm.install(reg)
     cm.install(reg)
+    cm.install_translation_model(reg)
     for c in CONTRACTS:
         reg.add_contract(c)
     return reg
@@ -520,7 +521,26 @@ def ccs_setup(ctx, subset=(0, 1, 2, 3, 4, 5)):
               fft_output=fft_output, device="cpu", M=Mx, N=Nx)
 
 
+def ccs_apply_result(ctx, s):
+    """cross_correlation_shift used BY CONTRACT at a call site whose images live in the translation model (both images are
+    the same content at positions p_ref, p_im): the C13 statement itself - the returned shift is the translation that maps the
+    second image onto the first, p_ref - p_im.  (This statement is what the bounded run-time contract decides for the real
+    estimator; it is NOT among the proved obligations of cross_correlation_shift - see ASSUMPTIONS.)"""
+    a, b = s.im_ref, s.im
+    if not (isinstance(a, cm.TImg) and isinstance(b, cm.TImg)):
+        return None
+    if a.cid != b.cid:
+        raise V.OutOfSubset("estimator applied to images of different content: outside the property statement")
+    sh = V.from_list([a.pos[0] - b.pos[0], a.pos[1] - b.pos[1]], kind="real", pylist=False)
+    ctx.ghost.setdefault("c13_estimator_calls", []).append(dict(ref=a, im=b, shift=sh, returns_image=bool(s.return_shifted_image)))
+    if s.return_shifted_image is True:
+        return sh, cm.TImg(a.pos, a.cid)
+    return sh
+
+
 def ccs_ensures(s):
+    if s.mode == "apply":
+        return []
     ctx = s.ctx
     Fref = ("sym", "F_ref") if s.fft_input else ("fft2", "im_ref")
     Fim = ("sym", "F_im") if s.fft_input else ("fft2", "im")
@@ -612,10 +632,108 @@ def ccs_ensures(s):
 
 
 # the same contract, verified in two halves of the configuration list (two worker processes)
-C_CCS = Contract(f"{IU}:cross_correlation_shift", setup=lambda ctx: ccs_setup(ctx, (0, 1, 2)), ensures=ccs_ensures)
-C_CCS2 = Contract(f"{IU}:cross_correlation_shift", setup=lambda ctx: ccs_setup(ctx, (3, 4, 5)), ensures=ccs_ensures)
+C_CCS = Contract(f"{IU}:cross_correlation_shift", setup=lambda ctx: ccs_setup(ctx, (0, 1, 2)), ensures=ccs_ensures, result=ccs_apply_result)
+C_CCS2 = Contract(f"{IU}:cross_correlation_shift", setup=lambda ctx: ccs_setup(ctx, (3, 4, 5)), ensures=ccs_ensures, result=ccs_apply_result)
 
-CONTRACTS = [C_CCS, C_CCS2, C_ALIGN, C_DFTT, C_UPS, C_CCT, C_DFTN]
+# ------------------------------------------------------------------------------------------------
+# call site with a HISTORY: tomography.utils.cross_correlation_align_stack (chain bookkeeping under a loop invariant)
+# ------------------------------------------------------------------------------------------------
+TU = "quantem.tomography.utils"
+
+
+def _T(ctx_or_s):
+    """applied translations: T(k) = the translation that maps stack image k onto the reference (two Int -> Real functions)."""
+    return z3.Function("applied_row", z3.IntSort(), z3.RealSort()), z3.Function("applied_col", z3.IntSort(), z3.RealSort())
+
+
+def stk_setup(ctx):
+    n = ctx.fresh("n_images", "int")
+    ctx.assume(n.t >= 0)
+    Tr, Tc = _T(ctx)
+    ref = cm.TImg((0, 0))
+    # image k is the reference content translated by -T(k): translating it by T(k) reproduces the reference
+    stack = SymArr((n,), lambda k: cm.TImg((Sym(-Tr(lift(k))), Sym(-Tc(lift(k))))), "obj", name="stack")
+    return NS(ref_img=ref, stack=stack, n=n)
+
+
+def _alen(x):
+    return lift(x.n) if isinstance(x, cm.AList) else z3.IntVal(len(x))
+
+
+def _aget(x, j):
+    if isinstance(x, cm.AList):
+        return x.get(j)
+    if len(x) == 0:
+        return None
+    r = x[-1]
+    for i in range(len(x) - 2, -1, -1):
+        r = cm.ite_value(lift(j) == i, x[i], r)
+    return r
+
+
+def _registered(img):
+    """the image coincides with the stack reference (position 0 of the reference content)."""
+    return pybool(False) if not isinstance(img, cm.TImg) else AND(R(img.pos[0]) == 0, R(img.pos[1]) == 0)
+
+
+def _stk_elementwise(s, shifts, images, upto, tag):
+    """[(label, term)]: for an arbitrary j < upto: shift j = applied translation j, aligned image j = reference."""
+    Tr, Tc = _T(s)
+    j = z3.Int("j!" + tag)
+    sh, im = _aget(shifts, j), _aget(images, j)
+    rng = AND(j >= 0, j < lift(upto))
+    if sh is None or im is None:   # empty python lists before the loop: nothing to state
+        return [("returned-shift-j=applied-translation-j(relative-to-the-reference)", z3.BoolVal(True)),
+                ("aligned-image-j-matches-the-reference", z3.BoolVal(True))]
+    ok_vec = isinstance(sh, SymArr) and sh.ndim == 1 and V._dim_lit(sh.shape[0]) == 2
+    eq = AND(R(sh.fn(z3.IntVal(0))) == Tr(j), R(sh.fn(z3.IntVal(1))) == Tc(j)) if ok_vec else pybool(False)
+    return [("returned-shift-j=applied-translation-j(relative-to-the-reference)", z3.ForAll([j], implies(rng, eq))),
+            ("aligned-image-j-matches-the-reference", z3.ForAll([j], implies(rng, _registered(im))))]
+
+
+def stk_inv(s):
+    return [("comparison-image-handed-to-the-estimator-is-registered-onto-the-stack-reference", _registered(s.prev_img)),
+            ("one-shift-per-processed-image", _alen(s.pred_shifts) == lift(s.k)),
+            ("one-aligned-image-per-processed-image", _alen(s.new_images) == lift(s.k))] + _stk_elementwise(s, s.pred_shifts, s.new_images, s.k, "inv")
+
+
+def _fresh_alist(ctx, name, make):
+    n = ctx.fresh("len_" + name, "int")
+    return cm.AList(n, make)
+
+
+def stk_havoc_shifts(s):
+    fr, fc = z3.Function(s.ctx.fresh_name("shift_row"), z3.IntSort(), z3.RealSort()), z3.Function(s.ctx.fresh_name("shift_col"), z3.IntSort(), z3.RealSort())
+    s.env.assign("pred_shifts", _fresh_alist(s.ctx, "pred_shifts", lambda j: V.from_list([Sym(fr(lift(j))), Sym(fc(lift(j)))], kind="real", pylist=False)))
+
+
+def stk_havoc_images(s):
+    fr, fc = z3.Function(s.ctx.fresh_name("aligned_row"), z3.IntSort(), z3.RealSort()), z3.Function(s.ctx.fresh_name("aligned_col"), z3.IntSort(), z3.RealSort())
+    s.env.assign("new_images", _fresh_alist(s.ctx, "new_images", lambda j: cm.TImg((Sym(fr(lift(j))), Sym(fc(lift(j)))))))
+
+
+def stk_ensures(s):
+    res = s.result
+    ok = isinstance(res, tuple) and len(res) == 2
+    out = [("returns-(aligned-images,shifts)", pybool(ok))]
+    if not ok:
+        return out
+    images, shifts = res
+    n = lift(s.n)
+    out += [("one-shift-per-stack-image", _alen(shifts) == n), ("one-aligned-image-per-stack-image", _alen(images) == n)]
+    out += _stk_elementwise(s, shifts, images, s.n, "post")
+    out.append(("frame:the-caller's-stack-is-not-written", pybool(s.stack.writes == 0)))
+    return out
+
+
+C_STACK = Contract(
+    f"{TU}:cross_correlation_align_stack", setup=stk_setup, ensures=stk_ensures,
+    loops={0: LoopSpec(inv=stk_inv, havoc={"pred_shifts": stk_havoc_shifts, "new_images": stk_havoc_images},
+                       kinds={"prev_img": lambda ctx, old: cm.TImg((ctx.fresh("prev_row", "real"), ctx.fresh("prev_col", "real")))})},
+    note="estimator used by contract (the C13 statement); scipy.ndimage.shift translates by +shift (trusted)",
+)
+
+CONTRACTS = [C_CCS, C_CCS2, C_ALIGN, C_DFTT, C_UPS, C_CCT, C_DFTN, C_STACK]
 
 # ------------------------------------------------------------------------------------------------
 # property-level lemmas (from the statements above alone)
@@ -1138,6 +1256,10 @@ def fam_callers(tier="quick", seed=0):
                     yield dict(caller=caller, H=H, W=W, up=up, seed=seed + sd + H)
 
 
+C_STACK.concretize = lambda ev: dict(caller="tomography", H=17, W=20, up=1, seed=int(ev("n_images", 3) or 3) % 7)
+C_STACK.rt = rt_callers
+C_STACK.rt_family = lambda: (i for i in fam_callers("quick", 0) if i["caller"] == "tomography")
+
 BOUNDED = [
     bounded_shift("shift recovery contract on real estimators (numpy + torch)", fam_shift,
                   "shapes 8..33 odd/even/non-square (11 quick, 17 thorough), upsample {1,2,3,4,8,16,64} (+5,32 thorough), identical / 4 integer / 4 sub-pixel shifts "
@@ -1164,7 +1286,10 @@ ASSUMPTIONS = [
     "cross_correlation_shift is verified for 6 of the 12 combinations of (fft_input, return_shifted_image, fft_output, max_shift given): a pairwise "
     "cover - every statement of the function that tests an option tests exactly one option; upsample_factor, shapes, max_shift value are symbolic on every path",
     "numpy parabolic_peak divides without a zero test: the vertex clauses are stated for non-zero curvature (unique peak), the flat case is not specified",
-    "callers in imaging/drift.py, tomography/utils.py, direct_ptycho_utils.py are not under contract; they rely on the frame + sign clauses proved here",
+    "tomography.utils.cross_correlation_align_stack is verified in a translation model of images (image = fixed content at a position; "
+    "scipy.ndimage.shift adds the shift to the position) with cross_correlation_shift used BY CONTRACT as `returns the translation mapping the "
+    "second image onto the first` - the C13 statement, decided for the real estimator only by the bounded run-time contract, not proved",
+    "callers in imaging/drift.py and direct_ptycho_utils.py are not under contract (bounded call-site family only); they rely on the frame + sign clauses proved here",
 ]
 EXPLANATION = ("VCs generated from the real source of dft_upsample, cross_correlation_shift, cross_correlation_shift_torch, align_images_fourier_torch, "
                "upsampled_correlation_torch, dftUpsample_torch (centred wrap, parabolic vertex, DFT index vectors and kernel phases, conjugation/sign convention, "
